@@ -170,7 +170,7 @@ class Engine:
         """Fixed scripts executed (and discarded) before anything else in every
         process, so that lazily initialised code paths do not perturb the first run."""
         return [self.generate(s, p, "quick") | {"seed": s, "profile": p}
-                for p in self.profiles("quick") for s in (1, 2)]
+                for p in sorted(set(self.profiles("quick"))) for s in (1, 2)]
 
     def expand(self, script, tier):
         """Thorough tiers may turn one script into many (fault enumeration)."""
